@@ -28,7 +28,7 @@ if [ $c -ne 0 ] && ! grep -E "^--- FAIL" /tmp/confirm.$$.c | grep -v "TestVector
 echo "demo-without=$a (want 0) demo-with=$b (want !=0) existing-tests-with=$c (want 0)"
 if [ $a -eq 0 ] && [ $b -ne 0 ] && [ $c -eq 0 ]; then
   D=/verif/seeded/$ID-$STORE; mkdir -p "$D"; cp "$OUT/notes.md" "$D/agent_notes.md" 2>/dev/null
-  git diff > "$D/patch.diff"; cp "$DEMO" "$D/$(basename $DEMO)"
+  git add -N . 2>/dev/null; git diff > "$D/patch.diff"; cp "$DEMO" "$D/$(basename $DEMO)"
   python3 - "$D" "$ID" "$STORE" "$PKG" "$RUN" "$TOUCHED $*" "$OUT" <<'PY'
 import json,sys,re,os
 d,i,m,pkg,run,tested,out=sys.argv[1:8]
